@@ -1,1 +1,65 @@
-From Coq Require Import ZArith.
+(* C19 — Generator gradient helpers realise the requested geometry and registers.
+   Statements only; proofs in proofs/GradGeomR.v.  The matrix derivations are single polymorphic
+   definitions (Generator.*_matrix_gen): their float32 instance is compared bit-for-bit with
+   generate.go; the geometry theorems are about their instance over the reals.  The register layout is
+   proved on the specification's machine (spec/VMSpec.v); that the Renderer refines that machine and
+   paints what it prescribes is C04, so the stops, spread and shape given are the ones rendered. *)
+From Coq Require Import Reals ZArith Bool List.
+From IVG Require Import SF NumCodec Color Calls Generator VMSpec GradGeomR.
+Import ListNotations.
+
+Theorem linear_geometry : forall x1 y1 x2 y2 : R, ((x2 - x1) * (x2 - x1) + (y2 - y1) * (y2 - y1) <> 0)%R ->
+  let m := linear_matrix_gen GR x1 y1 x2 y2 in
+  fst (apply m x1 y1) = 0%R /\ fst (apply m x2 y2) = 1%R /\
+  forall x y t : R, fst (apply m (x - t * (y2 - y1))%R (y + t * (x2 - x1))%R) = fst (apply m x y).
+Proof. exact GradGeomR.linear_geometry. Qed.
+Print Assumptions linear_geometry.
+
+Theorem circular_geometry : forall cx cy rx ry : R, (0 < rx * rx + ry * ry)%R ->
+  let m := circular_matrix_gen GR cx cy rx ry in
+  apply m cx cy = (0%R, 0%R) /\
+  let '(gx, gy) := apply m (cx + rx)%R (cy + ry)%R in (gx * gx + gy * gy = 1)%R.
+Proof. exact GradGeomR.circular_geometry. Qed.
+Print Assumptions circular_geometry.
+
+Theorem elliptical_geometry : forall cx cy rx ry sx sy : R, (rx * sy - sx * ry <> 0)%R ->
+  let m := elliptical_matrix_gen GR cx cy rx ry sx sy in
+  apply m cx cy = (0%R, 0%R) /\ apply m (cx + rx)%R (cy + ry)%R = (1%R, 0%R) /\ apply m (cx + sx)%R (cy + sy)%R = (0%R, 1%R).
+Proof. exact GradGeomR.elliptical_geometry. Qed.
+Print Assumptions elliptical_geometry.
+
+Local Open Scope Z_scope.
+
+(* more stops than fit beside the matrix: rejected, nothing written (the result carries no call) *)
+Theorem too_many_stops : forall csel nsel sh sp stops tr, (58 < length stops)%nat ->
+  set_gradient csel nsel sh sp stops tr = inl GTooManyStops.
+Proof. exact GradGeomR.too_many_stops. Qed.
+Print Assumptions too_many_stops.
+
+(* a colour selector inside the stop range (modulo 64): rejected, nothing written *)
+Theorem csel_in_stop_range : forall csel nsel sh sp stops tr, (length stops <= 58)%nat -> 0 <= csel < 64 ->
+  (exists i, 0 <= i < Z.of_nat (length stops) /\ (10 + i) mod 64 = csel) ->
+  set_gradient csel nsel sh sp stops tr = inl GCSelUsed.
+Proof. exact GradGeomR.csel_in_stop_range. Qed.
+Print Assumptions csel_in_stop_range.
+
+(* otherwise: the written registers, on the specification's machine *)
+Theorem gradient_layout : forall m sh sp stops (tr : list f32),
+  let csel := v_csel m in let nsel := v_nsel m in
+  0 <= csel < 64 -> 0 <= nsel < 64 -> (length stops <= 58)%nat -> length tr = 6%nat ->
+  (forall i, 0 <= i < Z.of_nat (length stops) -> (10 + i) mod 64 <> csel) ->
+  exists calls, set_gradient csel nsel sh sp stops tr = inr calls /\
+  let m' := vm_run m calls in
+  let n := Z.of_nat (length stops) in
+  v_csel m' = csel /\ v_nsel m' = nsel /\
+  v_creg m' csel = encode_gradient 10 10 sh sp n /\
+  (forall j, (j < length stops)%nat ->
+     v_creg m' (10 + Z.of_nat j) = gs_color (nth j stops (mkGS 0 (mkRGBA 0 0 0 0))) /\
+     v_nreg m' (10 + Z.of_nat j) = gs_offset (nth j stops (mkGS 0 (mkRGBA 0 0 0 0)))) /\
+  (forall k, (k < 6)%nat -> v_nreg m' (4 + Z.of_nat k) = nth k tr 0).
+Proof. exact GradGeomR.gradient_layout. Qed.
+Print Assumptions gradient_layout.
+
+Example ex_wraps : set_gradient 9 0 0 1 (repeat (mkGS 0 (mkRGBA 0 0 0 255)) 58) [0; 0; 0; 0; 0; 0] <> inl GCSelUsed
+  /\ set_gradient 3 0 0 1 (repeat (mkGS 0 (mkRGBA 0 0 0 255)) 58) [0; 0; 0; 0; 0; 0] = inl GCSelUsed.
+Proof. vm_compute. split; [discriminate|reflexivity]. Qed.
